@@ -144,9 +144,10 @@ Definition cv_ne (v r : value) : bool :=
   else if cv_is_inf_max v || cv_is_inf_max r then true
   else raw_ne v r.
 
-(** CompareGreaterThan / CompareLessThan test only the receiver for NULL. *)
+(** CompareGreaterThan / CompareLessThan: false when either side is NULL (they tested only the receiver before the
+    repair F-NULL-RIGHT; [payload] is then the identity on the right operand). *)
 Definition cv_gt (v r0 : value) : bool :=
-  if is_null v then false
+  if is_null v || is_null r0 then false
   else let r := payload v r0 in
   if cv_is_inf_max v && cv_is_inf_max r then false
   else if cv_is_inf_max v then true
@@ -168,7 +169,7 @@ Definition cv_ge (v r : value) : bool :=
   else raw_ge v r.
 
 Definition cv_lt (v r0 : value) : bool :=
-  if is_null v then false
+  if is_null v || is_null r0 then false
   else let r := payload v r0 in
   if cv_is_inf_max v && cv_is_inf_max r then false
   else if cv_is_inf_max v then false
